@@ -849,7 +849,16 @@ fn dyn_field(parent: &'static str, def: &'static FDef) -> d::Field {
                         return Err(err(Fault::ResolverError, &path));
                     }
                     note_failed(rc.ctx, parent, def.name, data, Fault::NullForNonNull);
-                    Ok(None)
+                    // "nothing" for a non-null type, in one of the two ways the API offers
+                    // (a null *value* only for leaf types: for an object type `Value::Null` is the
+                    // accepted idiom for "an object without data", pinned by the library's own tests)
+                    let leaf = matches!(def.ret, Ret::Int | Ret::Color) && !matches!(ty.unwrap_nn(), Ty::List(_));
+                    if !leaf || hash_str(&path) % 2 == 0 {
+                        Ok(None)
+                    } else {
+                        sim::count("fault:null-value-for-non-null");
+                        Ok(Some(d::FieldValue::NULL))
+                    }
                 }
                 Some(Fault::InvalidValue) => {
                     note_failed(rc.ctx, parent, def.name, data, Fault::InvalidValue);
